@@ -166,10 +166,11 @@ Proof.
   destruct (remove_at_refines K keqb hash keqb_spec t r Hok Hp) as [H1 H2].
   assert (Hne' : abs t <> []) by (unfold HashProofs.abs; destruct (order t); [congruence | discriminate]).
   assert (Hr : r = pred (length (abs t))) by (rewrite abs_length; reflexivity).
-  split; auto. rewrite iter_at_refines, H2, Hr. rewrite (remove_nth_last (abs t) Hne'). split; auto.
-  unfold s_iter.
-  assert (Hnone : nth_error (removelast (abs t)) (pred (length (abs t))) = None).
-  { apply nth_error_None. destruct (exists_last Hne') as [l' [a El]]. rewrite El.
+  assert (Hrl : remove_nth r (abs t) = removelast (abs t)) by (rewrite Hr; apply remove_nth_last; exact Hne').
+  split; [exact H1|]. split; [rewrite H2; exact Hrl|].
+  rewrite iter_at_refines, H2, Hrl. unfold s_iter, entry.
+  match goal with |- context [nth_error ?l ?i] => assert (Hnone : nth_error l i = None) end.
+  { apply nth_error_None. rewrite Hr. destruct (exists_last Hne') as [l' [a El]]. rewrite El.
     rewrite removelast_last, app_length. simpl. lia. }
   rewrite Hnone. reflexivity.
 Qed.
@@ -190,7 +191,7 @@ Proof.
 Qed.
 
 Lemma c_clear : commutes (fun t => (clear t, RNone)) (fun _ => ([], RNone)).
-Proof. intros t Hok. simpl. destruct (clear_refines K hash t Hok) as [H1 H2]. split; auto. rewrite H2. reflexivity. Qed.
+Proof. intros t Hok. simpl. destruct (clear_refines K hash t Hok) as [H1 H2]. split; auto. Qed.
 
 Lemma node_res_eq kd (n : node K) : node_res kd n = s_entry_res kd (ent K n).
 Proof. destruct kd; reflexivity. Qed.
@@ -199,16 +200,16 @@ Lemma c_front kd :
   commutes (fun t => match order t with [] => (t, RPre) | n :: _ => (t, node_res kd n) end)
            (fun l => match l with [] => (l, RPre) | e :: _ => (l, s_entry_res kd e) end).
 Proof.
-  intros t Hok. unfold HashProofs.abs. destruct (order t) as [|n rest]; simpl; auto.
-  split; auto. rewrite node_res_eq. reflexivity.
+  intros t Hok. unfold HashProofs.abs. cbv beta.
+  destruct (order t) as [|n rest] eqn:Eo; cbn [fst snd map]; rewrite ?Eo; cbn [map]; split; auto.
 Qed.
 
 Lemma c_back kd :
   commutes (fun t => match rev (order t) with [] => (t, RPre) | n :: _ => (t, node_res kd n) end)
            (fun l => match rev l with [] => (l, RPre) | e :: _ => (l, s_entry_res kd e) end).
 Proof.
-  intros t Hok. unfold HashProofs.abs. rewrite <- map_rev. destruct (rev (order t)) as [|n rest]; simpl; auto.
-  split; auto. rewrite node_res_eq. reflexivity.
+  intros t Hok. unfold HashProofs.abs. cbv beta. rewrite <- map_rev.
+  destruct (rev (order t)) as [|n rest] eqn:Eo; cbn [fst snd map]; split; auto.
 Qed.
 
 Lemma c_setval k v :
@@ -227,4 +228,110 @@ Proof.
   destruct (find_node t k) as [[r n]|]; simpl in *; auto.
   split; auto. rewrite <- H2, <- H3. reflexivity.
 Qed.
+
+(* ---- two-variable operations ---------------------------------------------------------------- *)
+Lemma abs_st_upd st x t : abs_st (upd x t st) = upd x (abs t) (abs_st st).
+Proof. unfold abs_st. apply map_upd. Qed.
+
+Lemma state_ok_upd st x t : state_ok st -> chains_ok t -> state_ok (upd x t st).
+Proof. intros H1 H2. apply Forall_upd; auto. Qed.
+
+Lemma new_default_ok : chains_ok (new_table default_capacity).
+Proof. apply new_table_ok. unfold default_capacity. lia. Qed.
+
+Lemma step_refines kd st o :
+  state_ok st ->
+  state_ok (fst (step kd st o)) /\
+  spec_step keqb kd (abs_st st) o = (abs_st (fst (step kd st o)), snd (step kd st o)).
+Proof.
+  intros Hst. unfold HashModel.step, spec_step.
+  destruct (op_allowed kd o) eqn:Eal; cbn [negb]; [|cbn [fst snd]; auto].
+  destruct o as [x c|x|x k|x k|x pos k v|x k v|x k v|x k|x r|x r|x|x|x|x y|x|x|x y|x y|x y|x y|x y|x k v].
+  - (* ONew *) destruct (c <? 0) eqn:Ec; [cbn [fst snd]; auto|].
+    apply with_var_refines; auto. apply c_new. apply Z.ltb_ge. exact Ec.
+  - apply with_var_refines; auto. apply c_newd.
+  - apply with_var_refines; auto. apply c_find.
+  - apply with_var_refines; auto. apply c_contains.
+  - apply with_var_refines; auto. apply c_insert.
+  - apply with_var_refines; auto. apply c_append.
+  - apply with_var_refines; auto. apply c_prepend.
+  - apply with_var_refines; auto. apply c_remove_key.
+  - apply with_var_refines; auto. apply c_remove_at.
+  - apply with_var_refines; auto. apply c_remove_val.
+  - apply with_var_refines; auto. apply c_remove_front.
+  - apply with_var_refines; auto. apply c_remove_back.
+  - apply with_var_refines; auto. apply c_clear.
+  - (* OSwap *) apply with_2_refines; auto. intros a b Ea Eb Ha Hb. cbn [fst snd]. split.
+    + apply state_ok_upd; auto. apply state_ok_upd; auto.
+    + rewrite !abs_st_upd. reflexivity.
+  - apply with_var_refines; auto. apply c_front.
+  - apply with_var_refines; auto. apply c_back.
+  - (* OCopy *) assert (Hkd : kd <> KPool) by (intros ->; discriminate).
+    apply with_2_refines; auto. intros a b Ea Eb Ha Hb. cbn [fst snd].
+    destruct (copy_refines K keqb hash keqb_spec kd (new_table default_capacity) b Hkd new_default_ok eq_refl Hb)
+      as [H1 H2].
+    split; [apply state_ok_upd; auto|]. rewrite abs_st_upd, H2. reflexivity.
+  - (* OAssign *) assert (Hkd : kd <> KPool) by (intros ->; discriminate).
+    apply with_2_refines; auto. intros a b Ea Eb Ha Hb.
+    destruct (Nat.eqb_spec x y) as [Exy|Exy]; cbn [fst snd].
+    + split; auto. subst y. f_equal. apply upd_same. unfold abs_st. rewrite nth_error_map', Eb. reflexivity.
+    + destruct (clear_refines K hash a Ha) as [Hc1 Hc2].
+      destruct (copy_refines K keqb hash keqb_spec kd (clear a) b Hkd Hc1 Hc2 Hb) as [H1 H2].
+      split; [apply state_ok_upd; auto|]. rewrite abs_st_upd, H2. reflexivity.
+  - (* OEq *) apply with_2_refines; auto. intros a b Ea Eb Ha Hb. cbn [fst snd]. split; auto.
+    rewrite (eq_refines K keqb hash kd a b Ha Hb). reflexivity.
+  - (* OAppendAll *) apply with_2_refines; auto. intros a b Ea Eb Ha Hb. cbn [fst snd].
+    destruct (append_all_refines K keqb hash keqb_spec kd (order b) a Ha) as [H1 H2].
+    split; [apply state_ok_upd; auto|]. rewrite abs_st_upd, H2. reflexivity.
+  - (* ORemoveAll *) apply with_2_refines; auto. intros a b Ea Eb Ha Hb. cbn [fst snd].
+    destruct (remove_all_refines K keqb hash keqb_spec (order b) a Ha) as [H1 H2].
+    split; [apply state_ok_upd; auto|]. rewrite abs_st_upd, H2. reflexivity.
+  - apply with_var_refines; auto. apply c_setval.
+Qed.
+
+(* ---- whole histories -------------------------------------------------------------------------- *)
+Lemma obs_st_refines st : state_ok st -> map (m_obs (K:=K)) st = map (s_obs (K:=K)) (abs_st st).
+Proof.
+  intros Hst. unfold abs_st. rewrite map_map. apply map_ext_in. intros t Hi.
+  apply (obs_refines K hash). revert t Hi. apply Forall_forall. exact Hst.
+Qed.
+
+Lemma run_refines kd ops : forall st, state_ok st -> run kd st ops = spec_run keqb kd (abs_st st) ops.
+Proof.
+  induction ops as [|o rest IH]; intros st Hst; cbn [HashModel.run spec_run]; auto.
+  destruct (step_refines kd st o Hst) as [H1 H2]. rewrite H2.
+  destruct (step kd st o) as [st' r]. cbn [fst snd] in *.
+  rewrite (obs_st_refines st' H1). f_equal. apply IH. exact H1.
+Qed.
+
+Fixpoint states (kd : kind) (st : list table) (ops : list (op K)) : list table :=
+  match ops with [] => st | o :: rest => states kd (fst (step kd st o)) rest end.
+
+Lemma states_ok kd ops : forall st, state_ok st -> state_ok (states kd st ops).
+Proof.
+  induction ops as [|o rest IH]; intros st Hst; cbn [states]; auto.
+  apply IH. apply (step_refines kd st o Hst).
+Qed.
+
+Definition start (caps : list Z) : list table := init (map ctor_cap caps).
+
+Lemma start_ok caps : Forall (fun c => 0 <= c) caps -> state_ok (start caps).
+Proof.
+  intros H. unfold start, init, state_ok. rewrite map_map. apply Forall_forall. intros t Hi.
+  apply in_map_iff in Hi. destruct Hi as [c [<- Hc]]. apply new_table_ok.
+  assert (Hc0 : 0 <= c) by (revert c Hc; apply Forall_forall; exact H).
+  unfold ctor_cap. destruct (Z.eqb_spec c 0); lia.
+Qed.
+
+Lemma abs_start caps : abs_st (start caps) = map (fun _ => []) caps.
+Proof. unfold start, init, abs_st. rewrite !map_map. reflexivity. Qed.
+
+Theorem refines_ordered_map kd caps ops :
+  Forall (fun c => 0 <= c) caps ->
+  run kd (start caps) ops = spec_run keqb kd (map (fun _ => []) caps) ops.
+Proof. intros H. rewrite <- abs_start. apply run_refines. apply start_ok. exact H. Qed.
+
+Theorem invariant_reachable kd caps ops :
+  Forall (fun c => 0 <= c) caps -> state_ok (states kd (start caps) ops).
+Proof. intros H. apply states_ok. apply start_ok. exact H. Qed.
 End Refine.
